@@ -16,6 +16,18 @@ pub mod shims {
     #[derive(Clone, Copy, PartialEq, Eq)]
     pub enum SubjectAttribute { CountryName, GenerationQualifier, GivenName, Initials, LocalityName, Name, OrganizationName,
         OrganizationalUnitName, Pkcs9EmailAddress, PostalAddress, PostalCode, StateOrProvinceName, Street, Surname, Title }
+    // ---- serde: what a hand-written `impl Deserialize` sees of it
+    pub trait Deserializer<'de>: Sized { type Error: de::Error; }
+    pub trait Deserialize<'de>: Sized { fn deserialize<D: Deserializer<'de>>(deserializer: D) -> Result<Self, D::Error>; }
+    pub mod de {
+        use vstd::prelude::*;
+        verus! {
+        pub trait Error: Sized { fn custom(msg: &str) -> Self; }
+        }
+    }
+    // [A, B].iter().copied().map(u8::from).sum(): how many of the two are true (rule T-ITER)
+    pub fn count_true2(a: bool, b: bool) -> (r: u8) ensures r == (if a { 1int } else { 0int }) + (if b { 1int } else { 0int })
+    { (if a { 1u8 } else { 0u8 }) + (if b { 1u8 } else { 0u8 }) }
     // S.parse::<T>() for these types: the name tables (uninterpreted here)
     pub trait Named: Sized { spec fn named(s: Seq<char>) -> Option<Self>; }
     pub uninterp spec fn key_type_named(s: Seq<char>) -> Option<KeyType>;
